@@ -81,7 +81,18 @@ def check_prune(res, rng, ncases):
         data = np.array([x for _, v in rows for x in v], dtype=np.float32)
         out = data.copy()
         pn.degree_prune_internal(indptr, out, m)
-        model = run_driver(["prune %d | %s" % (m, bits_row(v)) for _, v in rows])
+        # the TRANSLATED kernel (Gen/SearchGraphKernels.lean, regenerated from the source text by harness/translate_searchgraph.py)
+        # on the whole CSR, last line; max_degree = 0 is outside the translation (numba's index -1 wraps, `rd` answers oob)
+        model = run_driver(["prune %d | %s" % (m, bits_row(v)) for _, v in rows]
+                           + ["gk_prune %d | %s | %s" % (m, " ".join(str(int(x)) for x in indptr), bits_row(data) if len(data) else "")])
+        trans = model.pop().strip()
+        if m >= 1:
+            res.count("translated:compared")
+            want = bits_row(out) if len(out) else ""
+            if trans != want:
+                res.corr_fail("translated-kernel:degree_prune_internal", {"m": m, "indptr": [int(x) for x in indptr], "data_bits": bits_row(data) if len(data) else ""}, trans, want)
+        else:
+            res.count("translated:prune_m0_outside_translation")
         for r, (style, v) in enumerate(rows):
             o = out[indptr[r]:indptr[r + 1]]
             impl = bits_row(o) if len(v) else ""
